@@ -17,7 +17,8 @@ RULE = ("batches of length 0-8 over a pool of 5 distinct elements (values from t
         "{filesystem, filesystem+cache, memory}; the same elements are evaluated by individual calls on a twin "
         "store; non-trivial = distinct batches containing a duplicate, a failing element, a pre-memoized and a "
         "not-yet-memoized element at once"
-        '; rounds 7-9: batches whose elements name different parameters')
+        '; rounds 7-9: batches whose elements name different parameters'
+        '; rounds 10-11: a function with **opts and elements naming parameters outside the signature')
 ASSUMPTIONS = ["elements raising not-to-be-memoized exceptions are exempt from the at-most-once rule",
                "store states are compared as sets of (qualified name, argument hash, result type, value)"]
 TIMEOUT = 600
